@@ -1598,3 +1598,44 @@ def gen_c10_reject_case(seed, idx):
 def gen_c18_sibling_case(seed, idx):
     """a struct with zero or several fields is refused for `Deref` / `DerefMut` only"""
     return dict(gen_c14_error_case(seed, idx, only=['deref_arity']), id=f'c18s/{seed}/{idx}')
+
+
+def gen_macro_case(seed, idx):
+    """The annotated item is written inside a `macro_rules!` macro and gets its name and field types from the invocation
+    (`$name:ident`, `$f:ident`, `$t:tt`, `$u:ty`) — the everyday newtype-macro pattern.  The tokens of the item then come from
+    two syntax contexts; the generated code must not care."""
+    rng = random.Random(seed * 9000011 + idx)
+    traits = []
+    cmpset = rng.choice(closed_cmp_sets())
+    traits += cmpset
+    for t in ['Clone', 'Debug', 'Default', 'Hash']:
+        if rng.random() < 0.5:
+            traits.append(t)
+    ops = rng.random() < 0.25
+    if ops:
+        traits += rng.sample(['Add', 'Sub', 'Neg', 'AddAssign', 'Not', 'BitAnd'], 2)
+    if not traits:
+        traits = ['PartialEq']
+    rng.shuffle(traits)
+    tl = ', '.join(traits)
+    entry = rng.choice(['attr', 'derive'])
+    head = f'#[derive_ex({tl})]' if entry == 'attr' else f'#[derive(Ex)] #[derive_ex({tl})]'
+    kinds = rng.sample(['ident', 'tt', 'ty'], 2)
+    frag = {'ident': 'ident', 'tt': 'tt', 'ty': 'ty'}
+    argty = ['i8', 'i8'] if ops else [rng.choice(['i8', 'String', 'bool']), rng.choice(['i8', 'u16', 'String'])]
+    if 'Default' in traits and False:
+        pass
+    shape = rng.choice(['tuple', 'named', 'enum']) if not ops else rng.choice(['tuple', 'named'])
+    attrs = ['', '']
+    if cmpset and rng.random() < 0.4:
+        attrs[rng.randrange(2)] = rng.choice(['#[ord(ignore)] ', '#[ord(key = helpers::ksz(&$))] '] + (['#[ord(reverse)] '] if 'PartialOrd' in traits else []))
+    if shape == 'tuple':
+        body = f'pub struct $name({attrs[0]}pub $a, {attrs[1]}pub $b);'
+    elif shape == 'named':
+        body = f'pub struct $name {{ {attrs[0]}pub first: $a, {attrs[1]}pub second: $b }}'
+    else:
+        dflt = '#[default] ' if 'Default' in traits else ''
+        body = f'pub enum $name {{ {dflt}Unit, Tup({attrs[0]}$a, {attrs[1]}$b), Rec {{ x: $b }} }}'
+    mac = f'macro_rules! mk {{ ($name:ident, $a:{frag[kinds[0]]}, $b:{frag[kinds[1]]}) => {{ {head} {body} }} }}\nmk!(X, {argty[0]}, {argty[1]});\n'
+    return dict(id=f'mac/{seed}/{idx}', item=mac, src=PRELUDE + mac, traits=traits,
+                desc=dict(shape=shape, entry=entry, frags='+'.join(kinds)))
